@@ -1,6 +1,7 @@
 /- line-protocol driver for C01 / C02 (fixed-point quantizers at value level) -/
 import QKV.Drv.Json
 import QKV.Model.FixedQ
+import QKV.Model.FixedQObj
 open Lean QKV QKV.Drv
 
 def tieOf (j : Json) : Tie :=
@@ -40,11 +41,130 @@ def yxOf (j : Json) (f : SigMode → Rat → Rat) : Except String Json := do
     pure (rats (xs.map (f m)))
   | _, _ => pure Json.null
 
+/-! ### histories on one object (`QKV.Model.FixedQObj`) -/
+
+def ansToJson : Ans → Json
+  | .val r => ratToJson r
+  | .list l => rats l
+  | .err => Json.str "err"
+
+/-- a step of the wire format: `{"ev": name, "val": …}` or `{"ask": "call"|"min"|"max"|"range", …}`.
+    A call carries a LIST of inputs (`xs`, and `ps` for the classes with a surrogate): one `Ask.call`
+    per element, answered from the same state. -/
+def runHist {S E : Type} (M : ObjSpec S E Ask Ans) (parseEv : String → Json → Except String E)
+    (s0 : S) (steps : List Json) : Except String Json := do
+  let mut s := s0
+  let mut out : Array Json := #[]
+  for st in steps do
+    match (getStr st "ev").toOption with
+    | some name =>
+      let e ← parseEv name st
+      s := M.apply s e
+    | none =>
+      let a ← getStr st "ask"
+      match a with
+      | "call" =>
+        let xs ← getRatList st "xs"
+        let ps ← match (st.getObjVal? "ps").toOption with
+          | some _ => getRatList st "ps"
+          | none => pure xs
+        let ys := (List.zip xs ps).map fun (x, p) => M.answer s (Ask.call x p)
+        -- the same list through `ObjSpec.run` (the function the theorems are about)
+        let ys' := M.run s ((List.zip xs ps).map fun (x, p) => HStep.ask (Ask.call x p))
+        if ys != ys' then throw "run / answer mismatch"
+        out := out.push (Json.arr (ys.map ansToJson).toArray)
+      | "min" => out := out.push (ansToJson (M.answer s Ask.min))
+      | "max" => out := out.push (ansToJson (M.answer s Ask.max))
+      | "range" => out := out.push (ansToJson (M.answer s Ask.range))
+      | _ => throw s!"unknown ask {a}"
+  pure (Json.mkObj [("answers", Json.arr out)])
+
+def linEvOf (name : String) (st : Json) : Except String LinEv := do
+  match name with
+  | "set_symmetric" => pure (.setSymmetric (← getBool st "val"))
+  | "set_alpha" => pure (.setAlpha (← getOptRat st "val"))
+  | "set_alpha_auto" => pure .setAlphaAuto
+  | "trainable" => pure .trainable
+  | "rescale" => pure (.rescale (← getRat st "val"))
+  | "noop" => pure .noop
+  | _ => throw s!"quantized_linear: no event {name}"
+
+def bitsEvOf (name : String) (st : Json) : Except String BitsEv := do
+  match name with
+  | "set_bits" => pure (.setBits (← getInt st "val"))
+  | "set_integer" => pure (.setInteger (← getInt st "val"))
+  | "set_symmetric" => pure (.setSymmetric (← getBool st "val"))
+  | "set_keep_negative" => pure (.setKeepNeg (← getBool st "val"))
+  | "set_alpha" => pure (.setAlpha (← getOptRat st "val"))
+  | "trainable" => pure .trainable
+  | "rescale" => pure (.rescale (← getRat st "val"))
+  | "noop" => pure .noop
+  | _ => throw s!"quantized_bits: no event {name}"
+
+def reluEvOf (name : String) (st : Json) : Except String ReluEv := do
+  match name with
+  | "set_bits" => pure (.setBits (← getInt st "val"))
+  | "set_integer" => pure (.setInteger (← getInt st "val"))
+  | "set_slope" =>
+    let v ← st.getObjVal? "val"
+    pure (.setSlope (match v with | .null => none | v => (v.getNat?).toOption))
+  | "set_upper" => pure (.setUpper (← getOptRat st "val"))
+  | "set_qclip" => pure (.setQclip (← getBool st "val"))
+  | "set_use_sigmoid" => pure (.setUseSigmoid (← getBool st "val"))
+  | "trainable" => pure .noop
+  | "noop" => pure .noop
+  | _ => throw s!"quantized_relu: no event {name}"
+
+def surEvOf (name : String) (st : Json) : Except String SurEv := do
+  match name with
+  | "set_bits" => pure (.setBits (← getInt st "val"))
+  | "set_symmetric" => pure (.setSymmetric (← getBool st "val"))
+  | "trainable" => pure .noop
+  | "noop" => pure .noop
+  | _ => throw s!"quantized_tanh/sigmoid: no event {name}"
+
+def handleHist (j : Json) (t : Tie) : Except String Json := do
+  let cls ← getStr j "cls"
+  let cfg ← j.getObjVal? "cfg"
+  let steps := (← (← j.getObjVal? "steps").getArr?).toList
+  match cls with
+  | "qlinear" =>
+    let b ← getInt cfg "bits"
+    let i ← getInt cfg "integer"
+    let sy ← getBool cfg "symmetric"
+    let kn ← getBool cfg "keep_negative"
+    let al ← getOptRat cfg "alpha"
+    let c : LinCfg := { bits := b, integer := i, symmetric := sy, keepNeg := kn, alpha := al }
+    let auto : Bool := match (getBool cfg "auto").toOption with | some b => b | none => false
+    runHist (linSpec t) linEvOf (LinSt.construct c auto) steps
+  | "qbits" =>
+    let b ← getInt cfg "bits"
+    let i ← getInt cfg "integer"
+    let sy ← getBool cfg "symmetric"
+    let kn ← getBool cfg "keep_negative"
+    let al ← getOptRat cfg "alpha"
+    let c : BitsCfg := { bits := b, integer := i, symmetric := sy, keepNeg := kn, alpha := al }
+    runHist (bitsSpec t) bitsEvOf (BitsSt.construct c) steps
+  | "qrelu" =>
+    let c ← reluCfgOf cfg
+    let us : Bool := match (getBool cfg "use_sigmoid").toOption with | some b => b | none => false
+    runHist (reluSpec t) reluEvOf { cfg := c, useSigmoid := us } steps
+  | "qtanh" =>
+    let b ← getInt cfg "bits"
+    let sy ← getBool cfg "symmetric"
+    runHist (tanhSpec t) surEvOf { bits := b, symmetric := sy } steps
+  | "qsigmoid" =>
+    let b ← getInt cfg "bits"
+    let sy ← getBool cfg "symmetric"
+    runHist (sigmoidSpec t) surEvOf { bits := b, symmetric := sy } steps
+  | _ => throw s!"unknown class {cls}"
+
 def handle (j : Json) : Except String Json := do
   let op ← getStr j "op"
   let t := tieOf j
   let cfg ← j.getObjVal? "cfg"
   match op with
+  | "hist" => handleHist j t
   | "qbits" =>
     let b ← getInt cfg "bits"
     let i ← getInt cfg "integer"
